@@ -1,5 +1,5 @@
 """Named monitor sets (so that a replay file can rebuild exactly the monitors that produced it)."""
-from harness.monitors import MLife, MCarry, MDrain, MEscape, MHist, MViews, MFail, MRef, MJoin, MCrash, MTime, MChild, MRoute
+from harness.monitors import MAckOne, MLife, MCarry, MDrain, MEscape, MHist, MViews, MFail, MRef, MJoin, MCrash, MTime, MChild, MRoute
 
 def base(scenario):
     life = MLife()
@@ -24,7 +24,7 @@ def child(scenario):
 def healthy(scenario):
     """Monitors that never look inside a (possibly malformed) definition."""
     life = MLife()
-    return [life, MDrain(life), MEscape(), MRef(scenario)]
+    return [life, MDrain(life), MEscape(), MRef(scenario), MAckOne()]
 
 def route(scenario):
     life = MLife()
